@@ -37,7 +37,7 @@ def build(cmd_name, race=False, timeout=900):
         args[6] = out
         modfile = os.path.join(BIN, "alt%s.mod" % tag)
         with open(modfile, "w") as fh:
-            fh.write("module verif/harness\n\ngo 1.20\n\nrequire github.com/tychoish/fun v0.0.0\n\n"
+            fh.write("module verif/harness\n\ngo 1.22\n\nrequire github.com/tychoish/fun v0.0.0\n\n"
                      "replace github.com/tychoish/fun => %s\n" % os.path.abspath(alt))
         open(os.path.join(BIN, "alt%s.sum" % tag), "a").close()
         args += ["-modfile", modfile]
